@@ -1,6 +1,7 @@
 //! mon: one sub-command per property; each invocation is one single-threaded shard.
 mod c01;
 mod c02emit;
+mod c04;
 mod c05;
 mod c06;
 mod c07;
@@ -23,6 +24,7 @@ fn main() {
     common::with_big_stack(move || match a.prop.as_str() {
         "c01" => c01::run(&a),
         "c02emit" => c02emit::run(&a),
+        "c04" => c04::run(&a),
         "c05" => c05::run(&a),
         "c06" => c06::run(&a),
         "c07" => c07::run(&a),
